@@ -294,11 +294,17 @@ def generate_job(job):
     target, contract_dirs, root = job
     r = verify_target(target, contract_dirs, None, root, solve=False)
     obs = []
+    uc = getattr(r.engine, 'unit_contract', None) if r.engine is not None else None
+    replays = {k.args[0].value: k.args[1].value for k in uc.calls('replay')} if uc is not None else {}
+    default_recipe = sorted(set(replays.values()))[0] if len(set(replays.values())) == 1 else None
     for i, ob in enumerate(r.obligations):
         try:
             text = smt.to_smt2(obligation_assertions(r.engine, ob))
         except Exception as e:  # noqa
             text = None
+        if getattr(ob, 'replay', None) is None and ob.kind != 'cover':
+            # loop invariants, frames, call-site preconditions: the recipe named for this obligation, else the unit's only recipe
+            ob.replay = replays.get(ob.name.split('::', 1)[-1], default_recipe)
         obs.append({'unit': target, 'index': i, 'name': ob.name, 'kind': ob.kind, 'detail': ob.detail, 'want_sat': ob.want_sat,
                     'path': getattr(ob, 'path', ''), 'known_id': getattr(ob, 'known_id', None), 'replay': getattr(ob, 'replay', None),
                     'expect_refuted': getattr(ob, 'expect_refuted', False), 'smt2': text})
